@@ -123,6 +123,7 @@ func c10(c *core.Check) {
 	c10BoxSizingStores(c)
 	c10Rerun(c)
 	c10SavedBeforeFirstRun(c)
+	c10LastInFlowChild(c)
 	r4 := c.Rule("R4", "sibling symmetry in block layout code: two assignments of one block that differ by a side (Top/Bottom, Left/Right) on the left and have the same shape on the right mirror every side name of that axis (a half-mirrored pair is a copy-paste slip between the two sides of a box)", 6)
 	sideSymmetryRule(c, r4, "html/layout", map[string]bool{"blocks.go": true, "percentages.go": true, "min_max.go": true, "absolute.go": true, "float.go": true, "replaced.go": true, "preferred.go": true, "tables.go": true, "flex.go": true, "pages.go": true, "backgrounds.go": true, "columns.go": true, "grid.go": true}, 6)
 	r5 := c.Rule("R5", "box-edge sums: an additive expression over margins, paddings and border widths mentions each kind of edge with the same sides (both sides of an axis for all of them, or one side for all of them): a sum with the padding of both sides and twice the same border is a copy-paste slip", 44)
